@@ -158,7 +158,7 @@ def gen_alt(rng, idx, kinds, default_endian, zones):
         if alt['code_dict'] is None and alt['arg_dict'] is None:
             alt['code_dict'] = {k: 1 for k in ks}
     elif kind == 'numeric_bytecode':
-        csz = rng.choice([2, 3, 4])
+        csz = rng.choice([2, 3, 4, 4, 12, 16])
         alt['code'] = None
         alt['code_size'] = csz
         alt['min'] = 0
@@ -719,6 +719,8 @@ def operand_for(rng, alt, labels, addr_hint=0):
         return Txt(key, [t_lab(key)])
     if k == 'numeric_enumeration':
         d = alt['code_dict'] or alt['arg_dict']
+        if not CLEAN[0] and rng.random() < 0.3:
+            return x_num(rng, rng.choice([-1, -2, max(d) + 1, -max(d), 255]))          # not a member
         return x_num(rng, rng.choice(list(d)))
     if k == 'numeric_bytecode':
         if not CLEAN[0] and rng.random() < 0.5:
@@ -986,6 +988,23 @@ def gen_macro_scenario(rng, prof=None, tier='quick'):
     isa['sets']['ixw'] = [{'id': 'ix2', 'kind': 'indexed_register', 'code': (2, 2), 'pos': 'suffix', 'register': 'x', 'dec': None,
                            'idx': [{'id': 'ix2_0', 'kind': 'numeric_bytecode', 'code': None, 'code_size': 3, 'min': -6, 'max': 9}]}]
     isa['instrs']['add4'] = [variant(0x6, 3, sets_parser(['ixw']))]
+    # a macro variant whose step invokes another variant of the same macro (a finite expansion)
+    isa['macros']['mself'] = [{'parser': spec_parser(1, [[regalt(30, 'a', 1)]]), 'steps': [{'mn': 'mself', 'ops': [[('tok', '5', t_num(5))]]},
+                                                                                           {'mn': 'tst', 'ops': []}]},
+                              {'parser': sets_parser(['imm']), 'steps': [{'mn': 'ldx', 'ops': [[('ph', 'ARG', 0)]]}]}]
+    # @ARG of an indirect register operand: the offset text with its sign (a negative offset is 0 - offset)
+    isa['macros']['mind'] = [{'parser': spec_parser(1, [[indreg(5, True)]]),
+                              'steps': [{'mn': 'pop2', 'ops': [[('tok', '[', 'OLBr'), ('ph', 'REG', 0), ('tok', '+', t_op('OAdd')), ('tok', '(', 'OT TLPar'),
+                                                                 ('ph', 'ARG', 0), ('tok', ')', 'OT TRPar'), ('tok', ']', 'ORBr')]]}]}]
+    # the same decorator in front of and behind the same register: two different operands
+    isa['sets']['pre'] = [{'id': 'dpre', 'kind': 'register', 'code': (4, 4), 'pos': 'suffix', 'register': 'x', 'dec': ('plus_plus', True)}]
+    isa['sets']['post'] = [{'id': 'dpost', 'kind': 'register', 'code': (5, 4), 'pos': 'suffix', 'register': 'x', 'dec': ('plus_plus', False)}]
+    isa['instrs']['ldd'] = [variant(0xB, 4, sets_parser(['pre']))]
+    isa['instrs']['std'] = [variant(0xC, 4, sets_parser(['post']))]
+    # a register declared in upper case, written in lower case where an earlier variant takes a number
+    isa['regs'] = list(REGS) + ['HL']
+    isa['instrs']['ldh'] = [variant(0x44, 8, sets_parser(['imm'])),
+                            variant(0x45, 8, spec_parser(1, [[{'id': 'rhl', 'kind': 'register', 'code': (6, 4), 'pos': 'suffix', 'register': 'HL', 'dec': None}]]))]
     # an indexed register without byte code of its own whose index has a code: the code is still part of the encoding
     isa['sets']['ixn'] = [{'id': 'ix3', 'kind': 'indexed_register', 'code': None, 'pos': 'suffix', 'register': 'x', 'dec': None,
                            'idx': [{'id': 'ix3_0', 'kind': 'numeric_bytecode', 'code': None, 'code_size': 4, 'min': 0, 'max': 15},
@@ -1036,7 +1055,7 @@ def gen_macro_scenario(rng, prof=None, tier='quick'):
         return Txt(f'{n}+{b}', [t_lab(n), t_op('OAdd'), t_num(b)])
     kinds = ['dbl'] * 5 + ['mac1'] * 2 + ['mac2'] * 2 + ['swp', 'mac3', 'mac3', 'add3', 'add3', 'cmpq', 'cmpq', 'mac4', 'mac4', 'mac5', 'mac5',
                                                           'ldx', 'tst', 'psh2', 'psh2', 'mac6', 'mac6', 'jmpz2', 'jmpz2', 'swp2', 'add3b', 'add3b', 'add3b', 'cmpq2', 'cmpq2', 'cmpq2',
-                                                          'ld3', 'ld3', 'ld2', 'ld2', 'pop2', 'pop2', 'pop2', 'add4', 'add4', 'add4', 'add4', 'ldm', 'ldm', 'tri', 'tri', 'ldq', 'ldq']
+                                                          'ld3', 'ld3', 'ld2', 'ld2', 'pop2', 'pop2', 'pop2', 'add4', 'add4', 'add4', 'add4', 'ldm', 'ldm', 'tri', 'tri', 'ldq', 'ldq', 'mself', 'mself', 'mind', 'mind', 'ldd', 'ldd', 'ldh', 'ldh']
     # a program is rejected as a whole by one unacceptable statement: at most one statement kind that may be unacceptable
     risky_left = 1 if rng.random() < 0.5 else 0
     for _ in range(rng.randint(2, 7)):
@@ -1109,6 +1128,19 @@ def gen_macro_scenario(rng, prof=None, tier='quick'):
             risky_left = 0 if i not in (0, 3, -4, 7) else risky_left
             x = x_num(rng, i)
             stmts.append(['asm', 'add4', [['x+' + x.text, [t_lab('x'), t_op('OAdd')] + x.toks]]])
+        elif k == 'mself':
+            stmts.append(['asm', 'mself', rng.choice([[['a', [t_lab('a')]]], [['7', [t_num(7)]]]])])
+        elif k == 'mind':
+            form = rng.choice([Txt('[x+2]', ['OLBr', t_lab('x'), t_op('OAdd'), t_num(2), 'ORBr']), Txt('[x-4]', ['OLBr', t_lab('x'), t_op('OSub'), t_num(4), 'ORBr']),
+                               Txt('[x - K9]', ['OLBr', t_lab('x'), t_op('OSub'), t_lab('K9'), 'ORBr']), Txt('[x]', ['OLBr', t_lab('x'), 'ORBr'])])
+            stmts.append(['asm', 'mind', [[form.text, form.toks]]])
+        elif k == 'ldd':
+            for which in rng.choice([['std', 'ldd'], ['ldd', 'std'], ['ldd'], ['std', 'std', 'ldd']]):
+                o = Txt('++x', ['OT (TOp OAdd)', 'OT (TOp OAdd)', t_lab('x')]) if which == 'ldd' else Txt('x++', [t_lab('x'), 'OT (TOp OAdd)', 'OT (TOp OAdd)'])
+                stmts.append(['asm', which, [[o.text, o.toks]]])
+        elif k == 'ldh':
+            o = rng.choice([Txt('hl', [t_lab('hl')]), Txt('HL', [t_lab('HL')]), Txt('5', [t_num(5)]), Txt('Hl', [t_lab('Hl')])])
+            stmts.append(['asm', 'ldh', [[o.text, o.toks]]])
         elif k == 'ldq':
             i = rng.choice(['3', '0', '15', 'b', 'K9'])
             tok = t_num(int(i)) if i.isdigit() else t_lab(i)
@@ -1181,7 +1213,7 @@ def gen_constraint_scenario(rng, prof=None, tier='quick'):
     base = rng.choice([0x1230, 0x0450, 0x2300, 0x5a10]) if bits == 16 else rng.choice([0x010010, 0x123440, 0x020100])
     osz = 8 if ssz % 8 == 0 else 4
     from_end = rng.random() < 0.5
-    mx, mn = rng.choice([20, 100, 0]), rng.choice([-20, -100, 0])
+    mx, mn = rng.choice([20, 100, 0, 200, 255]), rng.choice([-20, -100, 0])
 
     def sets_parser(names):
         return {'count': len(names), 'specific': None, 'sets': {'list': list(names), 'rev_arg': False, 'rev_code': False, 'disallowed': []}}
@@ -1265,7 +1297,8 @@ def gen_constraint_scenario(rng, prof=None, tier='quick'):
             bad = []
             if hi is not None:
                 good += [hi, hi - 1]
-                bad += [hi + 1, 127] if hi < 127 else []
+                bad += [hi + 1, 127] if hi < 127 else ([hi + 1] if hi < 255 else [])
+                good += [hi - 50, 128] if hi >= 200 else []
             else:
                 good += [100, 127, 21]
             if lo is not None:
